@@ -40,13 +40,13 @@ FLAGSETS = [("none", {}), ("ne", {"no_explicit_cast": True}), ("ndl", {"no_data_
             ("both", {"no_explicit_cast": True, "no_data_loss": True})]
 
 TARGETS = ["none", "bool", "int", "float", "decimal", "complex", "str", "bytes", "bytearray", "list", "tuple", "set", "frozenset",
-           "dict", "date", "datetime", "time", "timedelta", "uuid", "enum:Color", "enum:Num", "enum:Plain", "sub:int", "sub:str",
+           "dict", "date", "datetime", "time", "timedelta", "uuid", "enum:Color", "enum:Num", "enum:Plain", "enum:Cross", "sub:int", "sub:str",
            "sub:float", "sub:list", "sub:dict", "tuple2", "data",
            # unions: their staged resolution (strict, no-loss, lenient) relies on the flags only restricting
            "union:str|int", "union:int|str", "union:int|float", "union:float|int", "union:int|list", "union:bool|int|str", "union:date|datetime|str",
            "union:decimal|float|none"]
 SCALAR_TARGETS = {"none", "bool", "int", "float", "decimal", "complex", "str", "bytes", "bytearray", "date", "datetime", "time",
-                  "timedelta", "uuid", "enum:Color", "enum:Num", "enum:Plain", "sub:int", "sub:str", "sub:float"}
+                  "timedelta", "uuid", "enum:Color", "enum:Num", "enum:Plain", "enum:Cross", "sub:int", "sub:str", "sub:float"}
 TARGET_GROUP = {"none": "null", "bool": "boolean", "int": "number", "float": "number", "decimal": "number", "complex": "number",
                 "str": "string", "bytes": "string", "bytearray": "string", "list": "array", "tuple": "array", "set": "array",
                 "frozenset": "array", "dict": "object", "sub:int": "number", "sub:str": "string", "sub:float": "number",
@@ -389,7 +389,7 @@ TABLE = [
     "2020-01-02", "2020-01-02 00:00:00", "2020-01-02 03:04:05", "2020-01-02T03:04:05", "2020-01-02T03:04:05Z", "2020-01-02T03:04:05+08:00",
     "2020-01-02 00:00:00.250000", "2020-01-02T00:00:00.000001", "2020-01-02 00:00:01", "2020-01-02 00:01:00", "2020-01-02 01:00:00",
     "2020-01-02T00:00:00.000", F("1577923200.5"), F("1577923200.0"), 1577923200, 1577923200250, B("2020-01-02 00:00:00.5"),
-    "03:04:05", "P1DT2H", "1 02:03:04", "12345678-1234-5678-1234-567812345678", "red", "RED", "ONE", "a", "Some Value",
+    "03:04:05", "P1DT2H", "1 02:03:04", "12345678-1234-5678-1234-567812345678", "red", "RED", "ONE", "a", "Some Value", "A", "B",
     B(""), B("1"), B("1.5"), B("abc"), B("true"), B("2020-01-02"), B("[1, 2]"), B('{"a": 1}'), B("red"), {"t": "bytes", "v": "ff"}, {"t": "bytes", "v": "61ff62"},
     {"t": "bytearray", "v": "31"}, {"t": "bytearray", "v": "32"}, {"t": "memoryview", "v": "31"},
     {"t": "list", "v": []}, {"t": "list", "v": [1]}, {"t": "list", "v": ["1"]}, {"t": "list", "v": [1, 2]}, {"t": "list", "v": [1, 2, 3]},
